@@ -106,7 +106,12 @@ class WriteToConn(TextIO):
 
     def write(self, output: str) -> int:
         resp: dict[str, Any] = {self.output_key: output}
-        send(self.server, resp)
+        try:
+            send(self.server, resp)
+        except OSError:
+            # The client hung up. Output meant for it is lost; this must not
+            # turn into an error inside whatever the server is doing.
+            pass
         return len(output)
 
     def writable(self) -> bool:
